@@ -331,12 +331,76 @@ def _(M, a, c): return V(a[0])
 @model_re(r'^PathBuf::push$')
 def _(M, a, c):
     p = V(a[0]); q = V(a[1]); p.d['s'] = p.d['s'] + b'/' + q.d['s']; p.d['rel'] = q.d['s']; return UNIT
+def _file_bytes(p):
+    p = deref_all(p)
+    if isinstance(p, Native) and p.kind in ('PathBuf',): rel = p.d.get('rel', p.d['s']).decode()
+    else: rel = bytes(e.v for e in toelems(p)).decode()
+    if rel not in ENV['files']: return None
+    src = ENV['files'][rel]
+    return list(elems(src)) if isinstance(src, bytes) else list(src)
+INVALID_UTF8 = 'stream did not contain valid UTF-8'
+def _utf8_ok(M, bs):
+    """decide (forking on symbolic bytes) whether the byte terms are well-formed UTF-8"""
+    if not bs: return True
+    if any(b.sym() for b in bs): return M.branch(utf8_valid_formula(bs))
+    try: bytes(b.v for b in bs).decode('utf-8'); return True
+    except UnicodeDecodeError: return False
+def io_err(msg): return Native('IoError', msg=msg)
 @model_re(r'^std::fs::read_to_string$')
 def _(M, a, c):
-    p = V(a[0]); rel = p.d.get('rel', p.d['s']).decode()
-    src = ENV['files'][rel]
-    if isinstance(src, bytes): return ok(pystr(src))
-    return ok(Native('String', b=list(src)))
+    bs = _file_bytes(a[0])
+    if bs is None: return err(io_err('No such file or directory (os error 2)'))
+    # documented contract: an error if the content is not valid UTF-8
+    if not _utf8_ok(M, bs): return err(io_err(INVALID_UTF8))
+    return ok(Native('String', b=bs))
+@model_re(r'^std::fs::read$')
+def _(M, a, c):
+    bs = _file_bytes(a[0])
+    return err(io_err('No such file or directory (os error 2)')) if bs is None else ok(Native('Vec', b=bs))
+@model_re(r'^(std::fs::)?File::open$')
+def _(M, a, c):
+    bs = _file_bytes(a[0])
+    return err(io_err('No such file or directory (os error 2)')) if bs is None else ok(Native('File', data=bs, pos=0))
+@model_re(r'^(std::io::)?BufReader::<.*>::new$|^(std::io::)?BufReader::new$|^(std::io::)?BufReader::<.*>::with_capacity$')
+def _(M, a, c): return a[-1]          # buffering is not observable: the reader is the file
+def _reader(x):
+    x = deref_all(x)
+    if not (isinstance(x, Native) and x.kind == 'File'): raise Unsupported("read on %r" % (x,))
+    return x
+@model_re(r'^<.* as (std::io::)?BufRead>::read_line$|^(std::io::)?BufRead::read_line$')
+def _(M, a, c):
+    f = _reader(a[0]); s = V(a[1]); d = f.d['data']; i = f.d['pos']; j = i
+    while j < len(d):
+        j += 1
+        if M.branch(M.binop('Eq', d[j - 1], U(8, 10))): break
+    chunk = d[i:j]; f.d['pos'] = j
+    if not _utf8_ok(M, chunk): return err(io_err(INVALID_UTF8))
+    s.d['b'].extend(chunk)
+    return ok(usize(len(chunk)))
+@model_re(r'^<.* as (std::io::)?BufRead>::lines$|^(std::io::)?BufRead::lines$')
+def _(M, a, c):
+    f = _reader(a[0])
+    from . import itermodels as im
+    def nxt():
+        d = f.d['data']; i = f.d['pos']
+        if i >= len(d): return im.STOP
+        j = i; nl = False
+        while j < len(d):
+            j += 1
+            if M.branch(M.binop('Eq', d[j - 1], U(8, 10))): nl = True; break
+        f.d['pos'] = j; chunk = d[i:j]
+        if not _utf8_ok(M, chunk): return err(io_err(INVALID_UTF8))
+        if nl:
+            chunk = chunk[:-1]
+            if chunk and M.branch(M.binop('Eq', chunk[-1], U(8, 13))): chunk = chunk[:-1]
+        return ok(Native('String', b=list(chunk)))
+    return im.mk(nxt)
+@model_re(r'^<.* as (std::io::)?Read>::(read_to_string|read_to_end)$|^(std::io::)?Read::(read_to_string|read_to_end)$')
+def _(M, a, c):
+    f = _reader(a[0]); dst = V(a[1]); rest = f.d['data'][f.d['pos']:]; f.d['pos'] = len(f.d['data'])
+    if norm_name(c).endswith('read_to_string') and not _utf8_ok(M, rest): return err(io_err(INVALID_UTF8))
+    dst.d['b'].extend(rest)
+    return ok(usize(len(rest)))
 @model_re(r'^Path::to_string_lossy$')
 def _(M, a, c): return pystr(V(a[0]).d['s'])
 @model('std::io::_print')
@@ -393,6 +457,7 @@ def render_one(M, fa):
             return display_local(M, v, '<Error as std::fmt::Display>::fmt')
         if base in ('Box<eval::error::Error>', 'Box<Error>'):
             return display_local(M, v.d['slot'][0], '<Error as std::fmt::Display>::fmt')
+        if base in ('std::io::Error', 'io::Error') and isinstance(v, Native) and v.kind == 'IoError': return elems(v.d['msg'])
         if base in ('FromUtf8Error', 'Utf8Error', 'std::str::Utf8Error', 'core::str::Utf8Error') and isinstance(v, Native):
             # Display of core::str::Utf8Error
             if v.d.get('sym'): raise Unsupported('Display of a Utf8Error over symbolic bytes')
